@@ -221,6 +221,11 @@ func (x *Exec) evalBuiltin(name string, n *ast.CallExpr, st *State) (Val, *State
 			// len(m) is the exact number of keys (the engine keeps it exact under insert and delete): a map of length 0
 			// has no key - stated here for the map value at hand, SMT has no cardinality reasoning to derive it
 			c.assume(st2.pc, tImp(tEq(b.Len, "0"), tForall([][2]string{{"k!e", b.KS}}, tNot(tSel(b.Has, "k!e")), tSel(b.Has, "k!e"))))
+			// ... and a map of non-zero length has one (named by a fresh constant; on request: `map-witness`)
+			if x.contract != nil && x.contract.MapWitness {
+				wk := c.fresh("somekey", b.KS)
+				c.assume(st2.pc, tImp(tNot(tEq(b.Len, "0")), tSel(b.Has, wk)))
+			}
 			return scInt(b.Len), st2
 		case Sc:
 			if b.S == SStr {
